@@ -147,7 +147,11 @@ int main(int argc,char** argv){
   signal(SIGALRM,on_alarm);
   g_refpath=argv[2]; long startfile=atol(argv[3]); int startentry=atoi(argv[4]);
   g_id="<startup>"; g_file=-1; step("reference");
-  g_ref=new ST(); g_ref->read_fits(g_refpath); slurp(g_refpath,g_refbytes); g_refdump=dump_table(*g_ref);
+  // the reference is a valid file: if the library refuses it, say so once and go on without it (every reuse test then fails with the
+  // same exception, and the caller reports the rejected valid file)
+  g_ref=new ST(); slurp(g_refpath,g_refbytes);
+  try{ g_ref->read_fits(g_refpath); g_refdump=dump_table(*g_ref); }
+  catch(std::exception& e){ std::cout<<"<reference> rfile FAIL msg="<<hexstr(oneline(e.what()))<<std::endl; g_ref=new ST(); g_refdump="<none>"; }
   std::ifstream in(argv[1]); std::string line; long fi=-1;
   while(std::getline(in,line)){
     auto w=split_ws(line); if(w.size()<3) continue;
